@@ -13,7 +13,7 @@ pub fn def() -> CheckDef {
         id: "C08",
         title: "Message stream is a faithful, ordered image of task lifecycles",
         case,
-        rule: "case = generated model (control flow, catches, generated acts) x scripted client using all action kinds x seeded schedule (every message dispatch is an independently scheduled task); the complete stream of a match-all channel is compared with the H2 trace and the live dumps; generation order of messages comes from the id shim. non-trivial = the run delivered >= 6 messages and at least two dispatch tasks were ready at the same time (so delivery order was a scheduler decision); distinct = distinct (scenario hash, schedule hash)",
+        rule: "case = generated model (control flow, catches, generated acts, lifecycle hooks) x scripted client using all action kinds (an eighth answering inside the message handler and ending every interrupt the same way: abort / skip / error) x seeded schedule (every message dispatch is an independently scheduled task); the complete stream of a match-all channel is compared with the H2 trace and the live dumps; generation order of messages comes from the id shim. non-trivial = the run delivered >= 6 messages and at least two dispatch tasks were ready at the same time (so delivery order was a scheduler decision); distinct = distinct (scenario hash, schedule hash)",
         level: "exploration",
         assumptions: &["monotone simulated clock", "message generation order is read from the id shim's sequence numbers", "no storage errors are injected"],
         probes: &["probe.delivery_order_differs_from_generation", "probe.caught_error", "probe.msg_act", "probe.non_complete_ending"],
